@@ -275,7 +275,10 @@ impl Watch {
             if !same {
                 let a: Vec<String> = actual.iter().map(|p| p.short()).collect();
                 let b: Vec<String> = expect.iter().map(|p| p.short()).collect();
-                self.flag(&["C06"], format!("store-mismatch/{}", what.split(|c| c == '(' || c == ' ').next().unwrap_or("")), format!("{what}: exported store {:?} but expected {:?}", a, b));
+                // a stored packet whose id is free is C08's concern as well: the id can be handed out again
+                let orphan = actual.iter().any(|p| p.id.map_or(false, |i| !self.m.ids.contains(&i)));
+                let props: &[&'static str] = if orphan { &["C06", "C08"] } else { &["C06"] };
+                self.flag(props, format!("store-mismatch/{}", what.split(|c| c == '(' || c == ' ').next().unwrap_or("")), format!("{what}: exported store {:?} but expected {:?}", a, b));
                 return;
             }
             for s in &self.m.store {
